@@ -145,8 +145,9 @@ Definition net_contains (n : ipnet) (ip : list N) : bool :=
   | None => (length x =? 0)%nat
   end.
 
-(* The comparison proposed in fix.patch (third hunk): all 128 bits of the
-   16-byte forms, no To4 shortening.  Used only by the [fx_contains] variant. *)
+(* prefixContains (synth.go, since 3d56ccc): all 128 bits of the 16-byte
+   forms, no To4 shortening.  extractIPv4 and handlePTR use it; the [old]
+   variant used net.IPNet.Contains there. *)
 Definition net_contains16 (n : ipnet) (ip : list N) : bool :=
   match to16 (n_ip n), to16 ip with
   | Some nn, Some x => (n_mlen n =? 16) && masked_eqb nn (mask_bytes (n_ones n) 16) x
@@ -161,16 +162,15 @@ Definition ip_equal (a b : list N) : bool :=
   else false.
 
 (* ------------------------------------------------------------------ *)
-(* which behaviour is modelled at the three places where the current
-   tree violates the property (see NOTES.md, fix.patch).  [cur] is the
-   tree as it is; a flag set to true models the corresponding hunk of
-   fix.patch. *)
+(* The three places repaired by commit 3d56ccc (props/C20/fix.patch).  A
+   flag set to true is the code as it is now; false is the behaviour before
+   the repair, kept only so that the old defects stay stated (Examples in
+   Proofs_examples.v) and the revert-regression has a name.  [cur] is the
+   tree as it is and the only variant check_case accepts; [old] is the
+   pre-fix tree. *)
 Record variant := mk_variant { fx_negttl : bool; fx_fallback_ad : bool; fx_contains : bool }.
-Definition cur : variant := mk_variant false false false.
-Definition fixed : variant := mk_variant true true true.
-Definition all_variants : list variant :=
-  [ mk_variant false false false; mk_variant true false false; mk_variant false true false; mk_variant true true false;
-    mk_variant false false true;  mk_variant true false true;  mk_variant false true true;  mk_variant true true true ].
+Definition cur : variant := mk_variant true true true.
+Definition old : variant := mk_variant false false false.
 
 (* ------------------------------------------------------------------ *)
 (* synth.go                                                            *)
@@ -426,9 +426,10 @@ Definition filter_aaaa (c : compiled) (ans : list rr) : list rr * bool * nat * n
   let kept := length (filter (fun r => is_aaaa r && negb (aaaa_excluded c r)) ans) in
   (filter (fun r => negb (aaaa_excluded c r)) ans, had, kept, stripped).
 
-(* negativeAAAATTL.  Current tree: first SOA, ttl := Hdr.Ttl, MINIMUM taken
-   only when 0 < MINIMUM < ttl; no SOA -> 0, and the caller treats 0 as
-   "no SOA".  fix.patch: min(Hdr.Ttl, MINIMUM) and an explicit "found". *)
+(* negativeAAAATTL.  Now: first SOA -> (min(Hdr.Ttl, MINIMUM), true), none ->
+   (0, false), and the caller takes the 600 s ceiling only when not found.
+   Before 3d56ccc ([old]): ttl := Hdr.Ttl, MINIMUM taken only when
+   0 < MINIMUM < ttl; no SOA -> 0, and the caller treated 0 as "no SOA". *)
 Fixpoint first_soa (ns : list (option (N * N))) : option (N * N) :=
   match ns with
   | [] => None
@@ -556,9 +557,8 @@ Definition basis_edes (orig : msg) : list N :=
   match (if m_ad orig then add_ede (m_edes orig) ede_forged else m_edes orig) with Some l => l | None => [] end.
 
 (* synth == nil: the (already AAAA-filtered) original is written.  When
-   records were stripped it is a copy whose AD bit is still the upstream's
-   (current tree); fix.patch clears it and attaches EDE 4 like the other
-   rewriting paths do. *)
+   records were stripped it is a copy: AD is cleared and EDE 4 attached like
+   on the other rewriting paths (before 3d56ccc the upstream's AD stayed). *)
 Definition fallback (v : variant) (m : msg) (same : bool) (aq : bool) : result :=
   let r := if same then reply_of true m
            else if fx_fallback_ad v
